@@ -2,7 +2,7 @@
 C06 — EER is a crossing point.
 Proved here: range of the EER on every path, "EER = 0 only with an error-free threshold",
 the FPR side (resp. FNR side) of the crossing on every path whose threshold is set at FPR
-(resp. FNR) = e, and the path analysis.  The FNR side on the bisection path is stated only.
+(resp. FNR) = e, and the path analysis.  The FNR side on the bisection path: see C06Root.lean.
 -/
 import SA.Spec.C06
 import SA.Theorems.C02
@@ -272,8 +272,10 @@ theorem C06_fpr_side_of_eer (u : Ulp) (hu : u.Lawful) (s : Scores)
   simp only [rangeOK, Bool.and_eq_true, decide_eq_true_eq, add_zero] at hr
   exact C06_fpr_side u hu s hp hn hnne t e (le_of_lt hat.1) (le_trans hr.1.2 (min_le_right _ _)) hat.2 htf
 
-/-- The FNR side on the bisection path: stated, not proved (needs Lipschitz control of the
-two threshold maps across the `1e-10` bracket); evaluated by `crossingOK` on every case. -/
+/-- The FNR side on the bisection path with slack 0: stated here, evaluated (with its `eps`) by
+`crossingOK` on every case.  REFUTED in the exact model by `C06_fnr_side_statement_false`
+(SA/Theorems/C06Root.lean: the excess is of the order of the `1e-10` bracket); what is proved
+there is the crossing bracket and the sandwich form with explicit slack. -/
 def C06_fnr_side_statement : Prop :=
   ∀ (u : Ulp) (s : Scores) (fuel : ℕ) (t e : ℚ), u.Lawful →
     s.pos.Pairwise (· ≤ ·) → s.neg.Pairwise (· ≤ ·) → 40 ≤ fuel →
